@@ -91,6 +91,7 @@ func genC17(e *emitter, tier string, seed int64) {
 	}
 	genC17Tree(e, tier, rng)
 	genC17Err(e, tier, rng)
+	genC17Link(e)
 	genC17Chain(e, tier, rng)
 }
 
@@ -195,6 +196,47 @@ func genC17Err(e *emitter, tier string, rng *rand.Rand) {
 					emit(src, "errpos-run", at2, at2+len(o), obs["err"], "a.p", srcs)
 				}
 			}
+		}
+	}
+}
+
+// link-time faults: the error of the script being linked starts at its own call site that leads
+// to the fault (a cycle through its second use(), a missing script behind a good one)
+func genC17Link(e *emitter) {
+	type lk struct {
+		scripts []scriptSrc
+		root    string
+		needle  string // the use() call at fault in the root script
+	}
+	cases := []lk{
+		{[]scriptSrc{{"a.p", "use(\"x.p\")\n\n  use(\"b.p\")\np(1)\n"}, {"b.p", "p(2)\nuse(\"a.p\")\n"}, {"x.p", "p(0)\n"}}, "a.p", "use(\"b.p\")"},
+		{[]scriptSrc{{"a.p", "p(1)\nuse(\"x.p\")\nif true {\n  use(\"nosuch.p\")\n}\n"}, {"x.p", "p(0)\n"}}, "a.p", "use(\"nosuch.p\")"},
+		{[]scriptSrc{{"a.p", "use(\"x.p\")\nuse(\"c.p\")\n"}, {"c.p", "p(3)\n  use(\"d.p\")\n"}, {"d.p", "use(\"c.p\")\n"}, {"x.p", "p(0)\n"}}, "a.p", "use(\"c.p\")"},
+		{[]scriptSrc{{"a.p", "use(\"x.p\")\nuse(\"bad.p\")\n"}, {"bad.p", "p(1)\n x = [len(len(nosuch()))]\n"}, {"x.p", "p(0)\n"}}, "bad.p", "nosuch()"},
+	}
+	for _, c := range cases {
+		order := []string{}
+		srcs := map[string]string{}
+		for _, s := range c.scripts {
+			order = append(order, s.Name)
+			srcs[s.Name] = s.Src
+		}
+		for _, ord := range perms(order) {
+			out := loadV1(loadCase{Scripts: c.scripts, Order: ord})
+			hook, _ := out["hook"].(map[string]any)
+			errs, _ := hook["errors"].(map[string]any)
+			ej := errs[hx(c.root)]
+			if ej == nil {
+				continue
+			}
+			src := srcs[c.root]
+			at := strings.Index(src, c.needle)
+			hs := map[string]any{}
+			for k, v := range srcs {
+				hs[hx(k)] = hx(v)
+			}
+			e.stat("errpos-link")
+			e.emit(map[string]any{"k": "errpos", "src": hx(src), "file": hx(c.root), "srcs": hs, "err": ej, "span": lineSpan(src, at, at+len(c.needle)), "gen": "errpos-link", "key": fmt.Sprint(c.root, ord)})
 		}
 	}
 }
